@@ -30,6 +30,7 @@ HEADER = _LICENCE + """#pragma once
 // Keep corresponding `_fwd.hh` file on top.
 
 #include "au/quantity.hh"
+#include "au/sim_ell_detail.hh"
 #include "au/unit_symbol.hh"
 #include "au/units/seconds.hh"
 
@@ -41,7 +42,7 @@ struct SimEllsLabel {
 };
 template <typename T>
 constexpr const char SimEllsLabel<T>::label[];
-struct SimElls : decltype(Seconds{} * mag<45>()), SimEllsLabel<void> {
+struct SimElls : decltype(Seconds{} * mag<45>() * detail::SimEllScale{}), SimEllsLabel<void> {
     using SimEllsLabel<void>::label;
 };
 constexpr auto sim_ell = SingularNameFor<SimElls>{};
@@ -62,26 +63,46 @@ struct SimElls;
 }  // namespace au
 """
 
-FILES = {"au/units/%s.hh" % STEM: HEADER, "au/units/%s_fwd.hh" % STEM: FWD}
+# A header the unit header includes and nobody names on a command line: reached transitively only.
+DETAIL = _LICENCE + """#pragma once
+
+#include "au/magnitude.hh"
+
+namespace au {
+namespace detail {
+using SimEllScale = decltype(mag<1>());
+}  // namespace detail
+}  // namespace au
+"""
+DETAIL_NAME = "au/sim_ell_detail.hh"
+
+FILES = {"au/units/%s.hh" % STEM: HEADER, "au/units/%s_fwd.hh" % STEM: FWD, DETAIL_NAME: DETAIL}
 
 # A second revision of the same header (a release unpacked over a vendored copy, a branch switch,
 # `cp -p` of a colleague's file): another magnitude and another label, so that a generator which
 # serves the first revision from anything it remembered is seen by the probe's output.
 HEADER_REV2 = HEADER.replace("mag<45>()", "mag<47>()").replace('"simell"', '"simel2"')
 assert HEADER_REV2 != HEADER
+# ... and a second revision of the transitively reached header only (the unit header itself, the
+# file a command line names, keeps its bytes and its time stamp)
+DETAIL_REV2 = DETAIL.replace("mag<1>()", "mag<3>()")
+assert DETAIL_REV2 != DETAIL
 
 BASE_MTIME = 1_800_000_000
 _MTIME_SHIFT = {"older": -86400, "equal": 0, "newer": 150_000_000}  # "newer" is later than anything the tool wrote in between (the overlay stamps its files from 1.9e9)
 
 
 def rev_of(spec):
-    """`added_unit` in a plan is True (first revision) or {"rev": 2, "mtime": older|equal|newer}."""
+    """`added_unit` in a plan is True (first revision) or
+    {"rev": 2, "mtime": older|equal|newer, "where": direct|transitive}."""
     return int(spec.get("rev", 1)) if isinstance(spec, dict) else 1
 
 
 def files(spec):
     if rev_of(spec) == 2:
-        return {"au/units/%s.hh" % STEM: HEADER_REV2, "au/units/%s_fwd.hh" % STEM: FWD}
+        if spec.get("where") == "transitive":
+            return dict(FILES, **{DETAIL_NAME: DETAIL_REV2})
+        return dict(FILES, **{"au/units/%s.hh" % STEM: HEADER_REV2})
     return FILES
 
 
